@@ -263,7 +263,10 @@ func pGenCase(t *rapid.T, prop string) *aCase {
 	c.AofTime = rapid.SampledFrom([]int{0, 0, 1}).Draw(t, "aofTime")
 	c.Clients = rapid.IntRange(1, 3).Draw(t, "clients")
 	c.AofBuf = rapid.SampledFrom([]int{64, 128, 256, 4096}).Draw(t, "aofBuf")
-	c.RewriteSize = 0 // size-triggered compaction runs in a goroutine concurrently with the workload: C16 only
+	// "file-rotation thresholds small enough to spread the history over several append files plus a rewrite file":
+	// the size-triggered rotation happens inside the write of the record that reaches the threshold, the compaction
+	// that follows runs in a goroutine of its own (the quiescent point waits for it)
+	c.RewriteSize = rapid.SampledFrom([]int{0, 0, 12 + 64*4, 12 + 64*8, 12 + 64*20}).Draw(t, "rewriteSize")
 	c.EpochOff = rapid.SampledFrom([]int{15, 45, 130}).Draw(t, "epochOff")
 	return c
 }
@@ -867,6 +870,12 @@ func c08After(c *c08Case, hc *aCase, inst *vInst, dir string, recovered *pState,
 		}
 	}
 	vAofIdle(inst.slock.aof)
+	if hc.RewriteSize > 0 {
+		vWaitRewriteRotations() // a size-triggered rotation starts a compaction goroutine: the directory is copied when it is done
+	} else {
+		vWaitRewrite(inst.slock.aof)
+	}
+	vAofIdle(inst.slock.aof)
 	inst.slock.aof.FlushWithLocked()
 	live := pSnapshot(inst.slock)
 	d2 := vScratchDir("c08b")
@@ -1202,6 +1211,7 @@ func c16Run(c *aCase, next func(e *aEnv) []aOp) (info c16Info, err error) {
 
 func c16Gen(t *rapid.T) (*aCase, func(e *aEnv) []aOp) {
 	c := pGenCase(t, "C16")
+	c.RewriteSize = 0 // the one compaction of a C16 case is driven by the harness; no size-triggered ones beside it
 	c.EpochOff = 15
 	n := rapid.IntRange(3, 26).Draw(t, "nOps")
 	fresh := 0
